@@ -254,5 +254,5 @@ def run(ck, facts):
     import c13
     sub = C.SubCheck(ck, "R6", "the tool lowers exactly the items the macro exports (nested plain modules are not analysed) and abi_rename is inherited per impl block, never carried to sibling items", ["R3"])
     c14.run(sub, facts)
-    sub2 = C.SubCheck(ck, "R6", "", ["R7"])
+    sub2 = C.SubCheck(ck, "R6", "", ["R7"], key_re=r"ast::modules|add_attrs")
     c13.run(sub2, facts)
